@@ -162,6 +162,10 @@ func runC15(t *testing.T, seed uint64, tier string) (*Scenario, *Result) {
 	sc := &Scenario{Prop: "C15", Family: "auth", Seed: seed}
 	sc.World = genWorld(seed, r, p)
 	sc.World.StallProb = 0
+	if sc.World.Policy != "seq" {
+		// statement-level scheduling points in http/auth.go (simgen -stmt-points)
+		sc.World.StmtYield = []float64{0.2, 0.5}[r.Intn(2)]
+	}
 	res := runCustom(t, sc, func(rn *runner) {
 		w := rn.w
 		sim := w.sim
